@@ -110,7 +110,9 @@ class EMGTrack(Sized, BuildWriteable):
         return base
 
     def __eq__(self, other):
-        return self.label == other.label and np.all(self.data == other.data)
+        return self.label == other.label and np.array_equal(
+            self.data, other.data, equal_nan=True
+        )
 
     def __repr__(self) -> str:
         return (
@@ -206,6 +208,9 @@ class EMG(Block):
             self.frequency == other.frequency
             and self.startTime == other.startTime
             and self.nSamples == other.nSamples
+            and self.format == other.format
+            and list(self._emgMap) == list(other._emgMap)
+            and len(self._signals) == len(other._signals)
             and all(s1 == s2 for s1, s2 in zip(self._signals, other._signals))
         )
 
